@@ -17,6 +17,8 @@
 //	        the same specification over hit / take-back events in execution order (overlap.go);
 //	subsecond-expiration  Expiration values that are not whole seconds (1 ns ... 2.5 s): bursts
 //	        sent at one instant, judged by clauses that hold for every window length (subsec.go);
+//	coldstart  timed histories on the injected storage, run FIRST in the process, before the
+//	        harness or any memory-backed app has started the coarse clock (coldstart.go);
 //	sched   2-3 concurrent requests on the injected storage, EVERY schedule (depth-first) over
 //	        the boundaries Storage.Get/Set, MaxFunc, KeyGenerator, handler entry/exit;
 //	walk    3-4 concurrent requests, one seeded random schedule per case.
@@ -46,11 +48,15 @@ func init() {
 
 func run(e *ev.Env) {
 	vt.Require()
+	// Before anything in this process has started the coarse clock of gofiber/utils (vt.Start
+	// does, and so does every app on the built-in memory store): limiters on an external storage
+	// must keep time on their own (coldstart.go).
+	coldstart(e)
 	vt.Start()
 	corpus(e)
 	e.Cases("sched", e.N(96, 1600), func(c *ev.Case) { runSched(e, c) })
 	e.Cases("walk", e.N(600, 100000), func(c *ev.Case) { runWalk(e, c) })
-	e.Cases("overlap", e.N(2000, 100000), func(c *ev.Case) { runOverlap(e, c) })
+	e.Cases("overlap", e.N(6000, 120000), func(c *ev.Case) { runOverlap(e, c) })
 	e.Cases("timed", e.N(3000, 300000), func(c *ev.Case) { runTimed(e, c) })
 	// last: its memory-backend apps (one per expiration value) leave tickers behind
 	subsecCorpus(e)
